@@ -525,6 +525,14 @@ def run_op(rec: Recorder, op: dict) -> dict:
     more = {"c": lambda s: not s.endswith(b"c"), "csi": lambda s: not s.endswith(b"\x1b["),
             "ext": rec.more}.get(op.get("more", "always"))
     try:
+        if name == "history":
+            # disable_queries(); op(); enable_queries(); op() - only the public API in between
+            import term_image
+
+            name = op["more"]
+            term_image.disable_queries()
+            run_op(rec, dict(op, name=name))
+            term_image.enable_queries()
         if name == "colors":
             fg, bg = U.get_fg_bg_colors()
             out["val"].update(a=list(fg or ()), an=fg is None, b=list(bg or ()), bn=bg is None)
@@ -577,6 +585,8 @@ def run_virtual(scn: dict, fault: dict | None = None) -> dict:
     dev = VirtualTty(codec, scn["attr0"], scn["win"], scn["ioctlFails"], scn["preload"], scn["sched"],
                      scn.get("pred"))
     op = dict(NO_OP, **scn["opx"]) if "opx" in scn else dict(NO_OP, name=scn["op"])
+    if op["name"] == "history" and op["more"] == "always":
+        op["more"] = scn["inner"]
     rec = Recorder(dev, codec, fault, quiet=("termsize",) if op["name"] == "draw" else ())
     # watchdog: an operation sends at most two queries, each bounded by its timeout
     longest = max([scn["tmo"], op["tmo"]] + [b["delay"] for s in scn["sched"] for b in s])
